@@ -984,14 +984,10 @@ class Food(UnitConversions):
                     self.kcals * other.kcals,
                     self.fat * other.fat,
                     self.protein * other.protein,
-                    self.kcals_units,
-                    self.fat_units,
-                    self.protein_units,
+                    kcals_units,
+                    fat_units,
+                    protein_units,
                 )
-
-                assert (
-                    self.get_units() == other.get_units_from_element_to_list()
-                ), "ERROR: multiplying foods with different units!"
 
             # this is a food and other is a list
             if isinstance(other, np.ndarray):
